@@ -29,6 +29,7 @@ pub struct Ctx {
     pub errors: Vec<String>,
     pub soft: Vec<String>,
     pub files: BTreeMap<String, syn::File>,
+    pub file_ranges: BTreeMap<String, (usize, usize)>,
     pub local_mods: BTreeSet<String>,   // child modules declared in the files read so far: paths rooted there are crate-local (rule N1)
     pub pending: Vec<(Vec<syn::Generics>, rewrite::LiftedClosure, String)>,   // lifted closures of methods inside an open trait / impl block
 }
@@ -41,6 +42,7 @@ impl Ctx {
             let src = match std::fs::read_to_string(&p) { Ok(s) => s, Err(e) => { self.err(format!("lost anchor: cannot read {}: {}", p.display(), e)); return None; } };
             match syn::parse_file(&src) {
                 Ok(mut f) => {
+                    { use syn::spanned::Spanned; let mut lo = usize::MAX; let mut hi = 0usize; for t in f.to_token_stream() { if let Some((a, b)) = global_range(t.span()) { lo = lo.min(a); hi = hi.max(b); } } self.file_ranges.insert(rel.to_string(), (lo, hi)); let _ = f.span(); }
                     let feats = self.unit.features.clone(); strip_cfg_file(&mut f, &feats, self);
                     // N2: `use path::Type::Variant;` makes `Variant` an alias of `Type::Variant` in this file
                     fn walk(t: &syn::UseTree, parent_upper: Option<String>, out: &mut Vec<(String, String)>) {
@@ -438,6 +440,7 @@ fn flush_pending(cx: &mut Ctx, specs: &mut Specs, em: &mut Emitter) {
 }
 
 fn emit_fn(cx: &mut Ctx, specs: &mut Specs, em: &mut Emitter, ex: &Extract, file: &syn::File, fd: &Found, in_trait: Option<String>) {
+    em.file_ranges = cx.file_ranges.clone();
     let base_name = ex.path.rsplit("::").next().unwrap().to_string();
     let mut f = fd.f.clone();
     let mut tr_generics: Option<syn::Generics> = None;
@@ -594,8 +597,20 @@ fn emit_fn(cx: &mut Ctx, specs: &mut Specs, em: &mut Emitter, ex: &Extract, file
     match specs.get(&format!("fn {}", name)) { Some(s) => em.raw_block(&s, ""), None => { if is_stub { cx.err(format!("lost anchor: stub `{}` has no contract section", name)); } } }
     let proof_entry = entry_text(cx, specs.get(&format!("proof {} entry", name)));
     let mut loopspecs: BTreeMap<usize, (String, Option<String>, Option<String>)> = BTreeMap::new();
+    // G5: an immutable local initialised from a place (`let timeout = self.config.timeout;`) before a loop keeps that value inside it;
+    // Verus forgets such facts at loop heads, so they are added to the invariants of the function's loops (only if nothing under the
+    // same root is ever assigned in the function)
+    let frame_facts = rewrite::immutable_place_lets(&block);
     for k in 0..nloops {
-        let inv = specs.get(&format!("loop {} {}", name, k)).unwrap_or_default();
+        let mut inv = specs.get(&format!("loop {} {}", name, k)).unwrap_or_default();
+        if !frame_facts.is_empty() && !inv.trim().is_empty() {
+            let mut lines: Vec<String> = inv.lines().map(|l| l.to_string()).collect();
+            if let Some(pos) = lines.iter().position(|l| { let t = l.trim(); t == "invariant" || t == "invariant_except_break" }) {
+                let ind: String = lines.get(pos + 1).map(|l| l.chars().take_while(|c| c.is_whitespace()).collect()).unwrap_or_else(|| "        ".into());
+                lines.insert(pos + 1, format!("{}{},   // @ob hx.immutable-local-keeps-its-value -", ind, frame_facts.iter().map(|(a, b)| format!("{} == {}", a, b)).collect::<Vec<_>>().join(", ")));
+                inv = lines.join("\n"); cx.fire("G5");
+            }
+        }
         loopspecs.insert(k, (inv, entry_text(cx, specs.get(&format!("proof {} loop {} start", name, k))), specs.get(&format!("proof {} loop {} end", name, k))));
     }
     if is_decl { em.raw(&format!("{};", indent)); }
@@ -675,7 +690,16 @@ fn emit_lifted(cx: &mut Ctx, specs: &mut Specs, em: &mut Emitter, gens: &[&syn::
     em.raw("#[verifier::external_body] // @closure-constructor: a closure object owns exactly what its literal captures (Rust semantics)");
     let ret_obj = specs.get(&format!("ret {}", ctor)).map(|s| s.trim().to_string()).unwrap_or_else(|| "ClosureObj".to_string());
     match specs.get(&format!("sig {}", ctor)) {
-        Some(sig) => em.raw(&format!("pub fn {}{}{} -> (r: {}){}", ctor, gtxt_all, positional(sig, lc).trim(), ret_obj, wtxt_all)),
+        Some(sig) => {
+            // captures the given signature does not name are appended, typed from the enclosing scope
+            let mut sg = positional(sig, lc).trim().to_string();
+            let inner = sg.trim_start_matches('(').trim_end_matches(')').to_string();
+            let names: Vec<String> = inner.split(',').map(|p| p.split(':').next().unwrap_or("").trim().to_string()).collect();
+            let mut extra = vec![];
+            for (i, c) in lc.captures.iter().enumerate() { let cn = if c == "self" { "this".to_string() } else { c.replace("self.", "self_") }; if !names.contains(&cn) { match lc.cap_types.get(i).cloned().flatten() { Some(t) => extra.push(format!("{}: {}", cn, t)), None => cx.err(format!("outside dialect: closure `{}` captures `{}` which its contract signature does not name and whose type is not known", lc.name, c)) } } }
+            if !extra.is_empty() { sg = format!("({}{}{})", inner, if inner.trim().is_empty() { "" } else { ", " }, extra.join(", ")); cx.fire("L1x"); }
+            em.raw(&format!("pub fn {}{}{} -> (r: {}){}", ctor, gtxt_all, sg, ret_obj, wtxt_all))
+        }
         None if any_typed => {
             // enclosing generics first (they appear in the capture types the spec gives), then one parameter per generic capture
             let g = { let t = gtxt_all.trim(); if t.len() >= 2 { t[1..t.len() - 1].to_string() } else { String::new() } };
@@ -868,7 +892,7 @@ fn main() {
     }
     let unit_path = unit_path.expect("--unit");
     let unit = match Unit::load(&unit_path) { Ok(u) => u, Err(e) => { eprintln!("hx: {}", e); std::process::exit(2); } };
-    let mut cx = Ctx { unit, repo, probe, rules: BTreeMap::new(), errors: vec![], soft: vec![], files: BTreeMap::new(), local_mods: BTreeSet::new(), pending: vec![] };
+    let mut cx = Ctx { unit, repo, probe, rules: BTreeMap::new(), errors: vec![], soft: vec![], files: BTreeMap::new(), file_ranges: BTreeMap::new(), local_mods: BTreeSet::new(), pending: vec![] };
     let mut specs = Specs::default();
     specs.defines = cx.unit.defines.clone();
     for s in cx.unit.specs.clone() { if let Err(e) = specs.load(&root.join(&s)) { eprintln!("hx: {}", e); std::process::exit(2); } }
